@@ -118,7 +118,13 @@ class CIGAR(list):
         if not re.match(r"^([0-9]+[MIDP])+$", string):
           raise gfapy.FormatError()
     for m in re.finditer("([0-9]+)([MIDNSHPX=])", string):
-      cigar.append(CIGAR.Operation(int(m.group(1)), m.group(2)))
+      try:
+        oplen = int(m.group(1))
+      except ValueError:
+        # (more digits than the Python integer conversion accepts)
+        raise gfapy.FormatError(
+          "Invalid CIGAR operation length: {}...".format(m.group(1)[:20]))
+      cigar.append(CIGAR.Operation(oplen, m.group(2)))
     return cigar
 
   def __str__(self):
